@@ -77,6 +77,22 @@ pub fn cells(tier: Tier) -> Vec<CellPlan> {
         c.rounds = if q { 3 } else { 4 };
         v.push(plan(c, if q { 1 } else { 2 }, 1.0));
     }
+    // Three clients: two authorized ones and one whose handshake is still in flight.
+    {
+        let mut c = cell("protocol-3c", Auth::ProtocolCheck, false);
+        c.cfg.clients = vec![1200, 1200, 1200];
+        c.connect_at_start = vec![0, 2];
+        c.alphabet = vec![
+            EvOp::Nop,
+            EvOp::Connect(1),
+            EvOp::EmitS(SK::E1, Mode::Except(0), None),
+            EvOp::EmitS(SK::E1, Mode::Broadcast, None),
+            EvOp::EmitS(SK::EI, Mode::Except(2), None),
+            EvOp::EmitS(SK::E1, Mode::Direct(2), None),
+        ];
+        c.rounds = if q { 3 } else { 4 };
+        v.push(plan(c, if q { 1 } else { 2 }, 1.0));
+    }
     // Frames of 20 ms: event buffers rotate every frame, so a `DisconnectRequest` written on a
     // frame without a tick is gone two frames later unless the backend's set ran in between.
     {
